@@ -32,8 +32,8 @@ def sh(cmd, cwd=None, timeout=None, env=None, stdin=None, stdout=subprocess.PIPE
     if env:
         e.update(env)
     p = subprocess.run(cmd, cwd=cwd, stdin=stdin, stdout=stdout, stderr=subprocess.STDOUT, env=e,
-                       timeout=timeout, text=(stdout == subprocess.PIPE))
-    return p.returncode, (p.stdout if stdout == subprocess.PIPE else "")
+                       timeout=timeout)
+    return p.returncode, (p.stdout.decode(errors="replace") if stdout == subprocess.PIPE else "")
 
 
 class Lock:
@@ -198,6 +198,13 @@ def split_cases(lines):
     return cases
 
 
+def rd(path):
+    """read a file written by the harness / driver; the implementation under test may have printed
+    arbitrary bytes (e.g. the payload of an element it had already dropped)"""
+    with open(path, errors="replace") as f:
+        return f.read()
+
+
 def correspond(pid, spec, tier, seed, release=False, tag=""):
     """run harness + driver; returns dict with meta, diffs, crash info"""
     rundir = os.path.join(RUNS, f"{pid}-{tier}" + ("-release" if release else "") + tag)
@@ -212,7 +219,7 @@ def correspond(pid, spec, tier, seed, release=False, tag=""):
     env = {k: v for k, v in env.items() if v}
     rc, out = sh([exe, spec["harness"], tier, str(seed), rundir], timeout=spec.get("timeout", 1200), env=env)
     res["harness_s"] = round(time.time() - t0, 2)
-    ops = open(os.path.join(rundir, "ops.txt")).read().splitlines() if os.path.exists(os.path.join(rundir, "ops.txt")) else []
+    ops = rd(os.path.join(rundir, "ops.txt")).splitlines() if os.path.exists(os.path.join(rundir, "ops.txt")) else []
     if rc != 0 or "HARNESS-DONE" not in out:
         # the implementation aborted (UB check, double panic, allocation failure): the last
         # announced operation is the culprit
@@ -221,19 +228,19 @@ def correspond(pid, spec, tier, seed, release=False, tag=""):
         res["crashed"] = {"rc": rc, "tail": out[-1500:], "case": last[0], "ops": last[1][-40:]}
         opath = os.path.join(rundir, "oracle.txt")
         if os.path.exists(opath):
-            res["meta"] = {"oracle_failures": open(opath).read().splitlines()[:50]}
+            res["meta"] = {"oracle_failures": rd(opath).splitlines()[:50]}
         return res
-    res["meta"] = json.load(open(os.path.join(rundir, "meta.json")))
+    res["meta"] = json.loads(rd(os.path.join(rundir, "meta.json")))
     t0 = time.time()
     with open(os.path.join(rundir, "ops.txt"), "rb") as fin, open(os.path.join(rundir, "model.txt"), "wb") as fout:
         p = subprocess.run([os.path.join(LEAN, ".lake", "build", "bin", "driver")], stdin=fin, stdout=fout,
                            stderr=subprocess.PIPE, timeout=3000)
     res["driver_s"] = round(time.time() - t0, 2)
     if p.returncode != 0:
-        res["diffs"].append({"case": "driver", "op": "", "impl": "", "model": "driver exited with %d: %s" % (p.returncode, p.stderr.decode()[-400:])})
+        res["diffs"].append({"case": "driver", "op": "", "impl": "", "model": "driver exited with %d: %s" % (p.returncode, p.stderr.decode(errors="replace")[-400:])})
         return res
-    impl = open(os.path.join(rundir, "impl.txt")).read().splitlines()
-    model = open(os.path.join(rundir, "model.txt")).read().splitlines()
+    impl = rd(os.path.join(rundir, "impl.txt")).splitlines()
+    model = rd(os.path.join(rundir, "model.txt")).splitlines()
     res["lines_compared"] = min(len(impl), len(model))
     if len(impl) != len(model) or len(ops) != len(impl):
         res["diffs"].append({"case": "stream", "op": "", "impl": f"{len(impl)} lines", "model": f"{len(model)} lines (ops: {len(ops)})"})
@@ -257,7 +264,7 @@ def case_text(rundir, header):
         p = os.path.join(rundir, name + ".txt")
         if not os.path.exists(p):
             continue
-        for h, lines in split_cases(open(p).read().splitlines()):
+        for h, lines in split_cases(rd(p).splitlines()):
             if h == header:
                 out[name] = lines[:400]
     return out
@@ -270,8 +277,8 @@ def post_fmtcfg(rundir):
     d = os.path.join(ROOT, "fmtcfg")
     res = {"configs": {}, "failures": []}
     ops = os.path.join(rundir, "ops.txt")
-    impl = open(os.path.join(rundir, "impl.txt")).read().splitlines()
-    opl = open(ops).read().splitlines()
+    impl = rd(os.path.join(rundir, "impl.txt")).splitlines()
+    opl = rd(ops).splitlines()
     for name, args in (("no-default-features", []), ("crate-default", ["--features", "crate-default"])):
         tdir = os.path.join(d, "target", name)
         rc, out = sh(["cargo", "build", "--offline", "--quiet", "--target-dir", tdir] + args, cwd=d, timeout=1200)
@@ -369,7 +376,7 @@ def run_check(pid, tier, seed):
         m = re.match(r"case (\d+):", f)
         header = None
         if m:
-            for h, _ in split_cases(open(os.path.join(cr["rundir"], "ops.txt")).read().splitlines()):
+            for h, _ in split_cases(rd(os.path.join(cr["rundir"], "ops.txt")).splitlines()):
                 if h.startswith(f"# case {m.group(1)} "):
                     header = h
         payload = {"property": pid, "kind": "oracle-failure", "profile": prof, "tier": tier, "seed": seed,
@@ -422,7 +429,7 @@ def run_check(pid, tier, seed):
                     m = re.match(r"case (\d+):", f)
                     header = None
                     if m and os.path.exists(os.path.join(cr["rundir"], "ops.txt")):
-                        for h, _ in split_cases(open(os.path.join(cr["rundir"], "ops.txt")).read().splitlines()):
+                        for h, _ in split_cases(rd(os.path.join(cr["rundir"], "ops.txt")).splitlines()):
                             if h.startswith(f"# case {m.group(1)} "):
                                 header = h
                     payload = {"property": pid, "kind": "oracle-failure", "profile": "debug", "tier": t, "seed": sd,
